@@ -64,6 +64,7 @@ M0(c) ==
     forced   |-> {},            \* steps whose connection was force closed while the plugin executed
     itemsRunning |-> {},        \* <<foreach step, item index>> between acquire and release
     par      |-> {},            \* <<foreach step, parallelism>> as provided
+    nitems   |-> {},            \* <<foreach step, number of items>> as provided
     evalFailed |-> FALSE,       \* some expression could not be evaluated at run time
     errKinds |-> {} ]
 
@@ -93,6 +94,11 @@ ForeachRules(mm, s, e) ==
       good   == {k \in DOMAIN subs : subs[k].ok /\ subs[k].id = "success"}
       bad    == DOMAIN subs \ good
       idx(k) == ToString(subs[k].i)
+      \* items that were handed to the loop but never ran (the loop was closed while they were queued): they have no
+      \* result, so the loop cannot have succeeded, and its failure report must name them
+      ns      == {x[2] : x \in {y \in mm.nitems : y[1] = s}}
+      ran     == {idx(k) : k \in DOMAIN subs}
+      missing == IF ns = {} THEN {} ELSE {ToString(i) : i \in 0..((CHOOSE x \in ns : TRUE) - 1)} \ ran
       wantOk == IF subs = <<>> THEN {<<<<"data">>, "[]">>}
                 ELSE UNION {{<<<<"data", idx(k)>> \o lf.p, lf.v>> : lf \in Range(subs[k].leaves)} : k \in DOMAIN subs}
       errIdx == {o[1][2] : o \in {x \in obs : Len(x[1]) >= 2 /\ x[1][1] = "errors"}}
@@ -112,9 +118,10 @@ ForeachRules(mm, s, e) ==
   scripted \cup
   IF e.prev = "outputs" THEN
        (IF bad # {} THEN {<<"C13", "success-reported-although-an-item-failed-or-ended-in-a-non-success-output", s>>} ELSE {})
-       \cup (IF bad = {} /\ obs # wantOk THEN {<<"C13", "success-data-is-not-the-item-results-in-item-order", s>>} ELSE {})
-  ELSE (IF bad = {} THEN {<<"C13", "failure-reported-although-every-item-succeeded", s>>} ELSE {})
-       \cup (IF errIdx # {idx(k) : k \in bad} THEN {<<"C13", "failure-report-does-not-identify-exactly-the-failing-items", s>>} ELSE {})
+       \cup (IF missing # {} THEN {<<"C13", "success-reported-although-an-item-never-ran", s>>} ELSE {})
+       \cup (IF bad = {} /\ missing = {} /\ obs # wantOk THEN {<<"C13", "success-data-is-not-the-item-results-in-item-order", s>>} ELSE {})
+  ELSE (IF bad = {} /\ missing = {} THEN {<<"C13", "failure-reported-although-every-item-succeeded", s>>} ELSE {})
+       \cup (IF errIdx # {idx(k) : k \in bad} \cup missing THEN {<<"C13", "failure-report-does-not-identify-exactly-the-failing-items", s>>} ELSE {})
        \cup (IF datIdx # {idx(k) : k \in good} THEN {<<"C13", "failure-report-does-not-carry-the-results-of-the-other-items", s>>} ELSE {})
 
 OnFItem(mm, e) ==
@@ -257,7 +264,8 @@ OnSProv(mm, e) ==
     THEN (IF e.val = "true" /\ e.step \notin mm.checked /\ e.step \notin mm.spawned
             THEN [mm EXCEPT !.stopPending = @ \cup {e.step}] ELSE mm)
     ELSE [mm EXCEPT !.slots = @ \cup {<<e.step, e.stage>>},
-                    !.par = IF e.stage = "execute" THEN @ \cup {<<e.step, e.par>>} ELSE @]
+                    !.par = IF e.stage = "execute" THEN @ \cup {<<e.step, e.par>>} ELSE @,
+                    !.nitems = IF e.stage = "execute" THEN @ \cup {<<e.step, e.n>>} ELSE @]
 
 OnSSlot(mm, e) ==
   IF e.op = "take" THEN [mm EXCEPT !.slots = @ \ {<<e.step, e.slot>>}] ELSE mm
